@@ -48,7 +48,7 @@ PROPS["C10"] = {
             "returning random fragment sizes (1..7 or up to 5000 bytes, isolated empty reads, final data with or without io.EOF) into bufio "
             "readers of size 16..80 or default; EVERY position of ~200 small encodings x (14 chosen bytes + 4 neighbours; all 255 values for "
             "12 of them, for all in thorough), every truncation, one-byte deletion and insertion, with and without a following sentinel value; "
-            "decbig: bulk values of 4094..262145 bytes and around 64 KiB and 1 MiB (thorough: up to 20 MB) alone, behind keep-alives, inside a "
+            "decbig: arrays of 255..5000 elements (thorough up to 200000; flat, nested, one short, followed by a value); bulk values of 4094..262145 bytes and around 64 KiB and 1 MiB (thorough: up to 20 MB) alone, behind keep-alives, inside a "
             "command array and followed by another value, cut short or with a wrong terminator (long values compared by length and FNV-1a); "
             "itos: table boundaries ±8 (thorough: every integer -1100..525400) + random; pint: integer texts around ±2^63, signs, zeros, foreign "
             "bytes; args/chg: command arrays incl. nil/empty command and nil arguments, non-array and non-bulk shapes. "
